@@ -18,7 +18,7 @@ for pid in ALL:
         m = importlib.import_module('sa.rules.' + pid.lower())
     except ImportError:
         m = None
-    if m is None or getattr(m, 'DISABLED', False):
+    if m is None or getattr(m, 'DISABLED', False) or not hasattr(m, 'LEVEL'):
         na.append(dict(property_id=pid, reason=NA.get(pid, 'check not built yet in this round (see DESIGN.md section 3 for the planned rules)')))
         continue
     checks.append(dict(
